@@ -11,6 +11,12 @@ Sub-claims (DESIGN §4 C13), all evaluated on the REAL `speckit` (SpectrumAnalyz
   d  finite      for finite input (all-zero, constant, one zero channel, identical channels, tiny, huge-but-safe) every density,
                  coherence and transfer-function value is finite and every error bar is finite where the coherence is positive;
                  `cf_db` is excluded (DESIGN §3: legitimately -inf at a zero transfer function); nothing raises
+  a-d are evaluated (i) on random records x presentations x options (layout / finite streams), (ii) by the OPTION SWEEP: every (backend, order,
+  mode) kernel branch on every run, both entry points and the module-level wrappers incl. single bins requested by `fres`, user schedulers,
+  every overlap request form and window kind, and call HISTORIES (second / third analysis on the same analyzer and on the same input array:
+  bytes untouched after every call, results bit-identical), plus the two backends against each other within the kernels' rounding budget,
+  (iii) on LONG records (>= 70001 samples, lengths around 2^16 and around the block constants mined from the current source, 1.1e6 samples)
+  with non-finite samples near the end.
 Correspondence: (a) the aliasing rules of the hand model `Model.heapStep` run over the GENERATED constructor op lists (Gen/Ctor.lean)
 predict whether `an.data` shares memory with the caller's array / whether the caller's buffer is written; compared with
 `np.shares_memory` / a byte comparison on the real constructor; (b) generated attribute table vs the real `__getattr__`.
@@ -88,7 +94,13 @@ RULE = ("cases = (record kind incl. zero/constant/ramp/tiny/huge, non-finite pat
         "presentation (2xN, Nx2 copy/view/F/strided, list/tuple/nested list, float32/int64/longdouble, read-only, reversed, pandas), order -1..2, "
         "backend auto|numpy, entry analyzer.compute|compute_spectrum|lpsd|analyzer.compute_single_bin|compute_single_bin, scheduler, window); "
         "distinct by (stream, presentation, pattern, order, backend, entry, mode); non-trivial = N >= 8 and the presentation or the pattern "
-        "differs from the plain C-contiguous float64 finite record, or the record is degenerate (finiteness stream)")
+        "differs from the plain C-contiguous float64 finite record, or the record is degenerate (finiteness stream). "
+        "Option sweep (every run): every (backend numba|numpy, order -1..2, auto|cross) cell x {aliasing presentation + call history on one analyzer / one "
+        "input array, 2xN vs Nx2 vs list + one cycling container/dtype/memory order, non-finite pattern through each of the 7 entry forms in turn, "
+        "degenerate record, saturated record}, cycling scheduler (4 built-in, fixed-length 'welch', re-listed lengths, all-structures 'mix'), overlap "
+        "request (default | float | 0.0 | so high that (1-olap)L < 1), window (kaiser psll | hann | callable | default | scipy kaiser), single bin by L or "
+        "by fres; distinct by all of these. Long records: N = 70001, three lengths around 2^16 / the block constants mined from the current source, and "
+        "1100003, non-finite samples in the last block / at block boundaries, single bins whose segment count crosses the kernels' chunk sizes")
 
 ORDERS = [-1, 0, 1, 2]
 BACKENDS = ["auto", "numpy"]
@@ -315,7 +327,7 @@ def run_entry(obj, fs: float, entry: str, backend: str, opts: Dict[str, Any], fr
     """-> (analyzer or None, result)"""
     import speckit
     from speckit.analysis import SpectrumAnalyzer
-    kw = dict(opts, backend=backend)
+    kw = real_opts(dict(opts, backend=backend))
     with warnings.catch_warnings(), np.errstate(all="ignore"):
         warnings.simplefilter("ignore")
         if entry == "analyzer.compute":
@@ -330,7 +342,20 @@ def run_entry(obj, fs: float, entry: str, backend: str, opts: Dict[str, Any], fr
             return an, an.compute_single_bin(freq, L=L)
         if entry == "compute_single_bin":
             return None, speckit.compute_single_bin(obj, fs, freq, L=L, **kw)
+        if entry == "analyzer.single_fres":                 # the same bin requested by its resolution fs / L instead of its length
+            an = SpectrumAnalyzer(obj, fs, **kw)
+            return an, an.compute_single_bin(freq, fres=fs / L)
+        if entry == "compute_single_bin_fres":
+            return None, speckit.compute_single_bin(obj, fs, freq, fres=fs / L, **kw)
     raise ValueError(entry)
+
+
+def ref_entry(entry: str) -> str:
+    """the analyzer-method form of an entry point: the reference (plain zero-filled float64 record) runs through it, so that both results
+    come from the same code path (full plan / single bin by length / single bin by resolution)"""
+    if entry.endswith("_fres"):
+        return "analyzer.single_fres"
+    return "analyzer.single" if "single" in entry else "analyzer.compute"
 
 
 def result_fields(res) -> Dict[str, Any]:
@@ -432,7 +457,7 @@ def eval_case(P: C.Part, case: Dict[str, Any], ref_cache: Optional[Dict[Any, Any
         # a plan / option error that a plain finite noise record of the same size provokes too is not about the input's values or layout
         ctrl = np.random.default_rng(N).standard_normal((1 if y is None else 2, N))
         try:
-            run_entry(ctrl[0].copy() if y is None else ctrl, fs, "analyzer.single" if "single" in entry else "analyzer.compute", backend, opts, freq, L)
+            run_entry(ctrl[0].copy() if y is None else ctrl, fs, ref_entry(entry), backend, opts, freq, L)
             ctrl_raises = False
         except Exception:
             ctrl_raises = True
@@ -477,12 +502,12 @@ def eval_case(P: C.Part, case: Dict[str, Any], ref_cache: Optional[Dict[Any, Any
                                             signature=dict(sig, subclaim="sanitise" if pattern != "none" else "layout", stage="stored"), replay=rp))
             return
     # a./c. results equal those of the plain C-contiguous float64 zero-filled record, bit for bit
-    rkey = (case["x_id"], entry in ("analyzer.single", "compute_single_bin"), backend, repr(sorted(opts.items())), freq, L) if "x_id" in case else None
+    rkey = (case["x_id"], ref_entry(entry), backend, repr(sorted(opts.items())), freq, L) if "x_id" in case else None
     ref = ref_cache.get(rkey) if (ref_cache is not None and rkey is not None) else None
     if ref is None:
         canon = xz.copy() if y is None else np.array([xz, yz], dtype=np.float64)
         try:
-            _, rres = run_entry(canon, fs, "analyzer.single" if "single" in entry else "analyzer.compute", backend, opts, freq, L)
+            _, rres = run_entry(canon, fs, ref_entry(entry), backend, opts, freq, L)
         except Exception as ex:
             P.violations.append(C.Violation(what=f"{where}: the plain zero-filled float64 record raised {ex!r}", signature=dict(sig, subclaim="raises", ref=True), replay=rp))
             return
@@ -795,6 +820,733 @@ def range_probe(ctx, P: C.Part) -> None:
         P.notes.append("range probe (outside the amplitude domain of sub-claim d, not counted as violations): non-finite values at amplitude " + "; ".join(obs))
 
 
+# ---------------------------------------------------------------- option sweep (entry points x kernel branches x call histories)
+# Every analysis option selects a branch of the library: 2 backends x 4 detrending orders x auto/cross pick one of 16 kernels, each entry point
+# (analyzer methods, module-level wrappers, single bin by length or by resolution) has its own glue, a user scheduler / window callable / overlap
+# request takes its own path through the configuration code, and a SECOND analysis on the same analyzer or the same input array sees whatever the
+# first one left behind.  The sub-claims a-d are quantified over all of these ("for all records ... layouts and dtypes, orders and modes"), so the
+# stream below applies the SAME predicates (bytes of the caller's object, stored record, bit-identity with the plain zero-filled float64 record,
+# finiteness) to cases drawn from one generator that visits every (backend, order, mode) on every run and cycles the other dimensions.
+ENTRIES_ALL = ENTRIES + ["analyzer.single_fres", "compute_single_bin_fres"]
+SW_BACKENDS = [("auto", "numba"), ("numpy",)]                      # 'auto' and 'numba' are the Numba kernels (no CUDA device), 'numpy' the fallbacks
+SW_SCHEDS = ["lpsd", "welch", "ltf", "relist", "vectorized_ltf", "new_ltf"]
+SW_OLAPS = ["default", "float", "zero", "high"]
+SW_WINS = ["kaiser", "hashwin", "hann", "default", "spkaiser"]
+SW_PSLL = [60.0, 200.0, 100.0, 137.5, 45.0]
+ALIAS_CROSS = ["2xN_C", "Nx2_F", "Nx2_Tview", "2xN_readonly"]   # the constructor's (2, N) float64 C-contiguous view IS the caller's buffer
+ALIAS_AUTO = ["1d_C", "1d_row_of_2d", "1d_readonly"]
+SW_SEQS = [
+    [["A", "compute"], ["A", "compute"], ["A", "compute"]],
+    [["A", "compute"], ["A", "single"], ["A", "compute"], ["A", "single_fres"], ["A", "single"]],
+    [["M", "compute_spectrum"], ["M", "lpsd"], ["M", "compute_spectrum"]],
+    [["A", "single"], ["A", "single"], ["A", "compute"], ["A", "single"]],
+    [["M", "compute_single_bin"], ["M", "compute_single_bin_fres"], ["M", "compute_single_bin"], ["M", "compute_single_bin_fres"]],
+    [["A", "compute"], ["B", "compute"], ["A", "single"], ["B", "single"], ["A", "compute"]],
+    [["M", "lpsd"], ["A", "compute"], ["M", "compute_single_bin"], ["A", "single"], ["M", "compute_spectrum"]],
+]
+STEP_OF_ENTRY = {"analyzer.compute": ["A", "compute"], "analyzer.single": ["A", "single"], "analyzer.single_fres": ["A", "single_fres"],
+                 "compute_spectrum": ["M", "compute_spectrum"], "lpsd": ["M", "lpsd"], "compute_single_bin": ["M", "compute_single_bin"],
+                 "compute_single_bin_fres": ["M", "compute_single_bin_fres"]}
+STEP_KIND = {"compute": "full", "compute_spectrum": "full", "lpsd": "full", "single": "single", "compute_single_bin": "single",
+             "single_fres": "single_fres", "compute_single_bin_fres": "single_fres"}
+KIND_REF = {"full": "analyzer.compute", "single": "analyzer.single", "single_fres": "analyzer.single_fres"}
+SAT_MIN_L = 8
+
+
+def hashwin(L: int) -> np.ndarray:
+    """a user window (callable): positive, not symmetric, values depend on L"""
+    return 0.5 + ((np.arange(L) * 7 + 3 * L) % 11) / 11
+
+
+def custom_sched(spec: str):
+    """user schedulers (the analyzer accepts callables), deterministic in (N, fs, olap) so that the reference analysis gets the same plan:
+       welch:L      one fixed segment length, stepped by round((1 - olap) L) >= 1 samples (back-to-back for olap = 0), a few bins up to Nyquist
+       relist:a,b,… the listed lengths in this order (a length may return after a different one: 256, 1024, 256), K = 2 / 1 / several segments
+       mix          every segment structure in one plan: L = N (K = 1), the two halves back-to-back, an odd length once in the middle, a short
+                    even length tiling the record, the half again (K = 1, reaching the last sample), the odd length overlapped with unsorted
+                    starts, two back-to-back segments at Nyquist, L = N again
+       long         a few bins for a long record: L = N, both halves, 4099 samples overlapped (first / middle / last), 50 short segments at the end"""
+    kind, _, arg = spec.partition(":")
+    nums = [int(v) for v in arg.split(",") if v]
+
+    def plan(N, fs, olap, **kw):
+        N, fs, olap = int(N), float(fs), float(olap)
+        bins: List[Tuple[int, List[int], float]] = []                 # (L, starts, bin number m: f = fs m / L)
+        if kind == "welch":
+            L0 = max(1, min(nums[0], N))
+            step = max(1, int(round((1.0 - olap) * L0)))
+            d = list(range(0, N - L0 + 1, step))[:24]
+            for m in sorted({int(v) for v in np.linspace(1, max(1, L0 // 2), min(6, max(1, L0 // 2)))}):
+                bins.append((L0, d, float(m)))
+        elif kind == "relist":
+            for j, Lj in enumerate(nums):
+                Lj = max(1, min(Lj, N))
+                if j % 3 == 0:
+                    d = sorted({0, N - Lj})
+                elif j % 3 == 1:
+                    d = [(N - Lj) // 2]
+                else:
+                    d = list(range(0, N - Lj + 1, max(1, int(round((1.0 - olap) * Lj)))))[:5]
+                bins.append((Lj, d, min(1.5 + j, Lj / 2.0)))
+        elif kind == "mix":
+            half, Lo, Le = N // 2, (N // 3) | 1, max(6, (N // 12) & ~1)
+            bins.append((N, [0], 1.0))
+            bins.append((half, sorted({0, N - half}), 2.0))
+            bins.append((Lo, [(N - Lo) // 2], 1.5))
+            bins.append((Le, list(range(0, N - Le + 1, Le))[:48], 1.0))
+            bins.append((half, [N - half], 3.0))
+            bins.append((Lo, list(range(0, N - Lo + 1, max(1, Lo // 2)))[:7][::-1], float((Lo - 1) // 2)))
+            bins.append((Le, [0, Le], Le / 2.0))
+            bins.append((N, [0], 2.5))
+        elif kind == "long":
+            half, Lb, Ls = N // 2, min(4099, N), min(12, N)
+            bins.append((N, [0], 3.0))
+            bins.append((half, sorted({0, N - half}), 2.5))
+            bins.append((Lb, sorted({0, (N - Lb) // 2, N - Lb}), 7.0))
+            bins.append((Ls, list(range(max(0, N - 50 * Ls), N - Ls + 1, Ls)), 2.0))
+        else:
+            raise ValueError(spec)
+        L = np.array([b[0] for b in bins], dtype=np.int64)
+        D = [np.array(b[1], dtype=np.int64) for b in bins]
+        f = np.array([fs * b[2] / b[0] for b in bins], dtype=np.float64)
+        r = fs / L
+        K = np.array([len(d) for d in D], dtype=np.int64)
+        return {"f": f, "r": r, "b": f / r, "L": L, "K": K, "navg": K.copy(), "D": D, "O": np.full(len(bins), olap)}
+    plan.__name__ = "custom_" + re.sub(r"\W", "_", spec)
+    return plan
+
+
+def real_opts(opts: Dict[str, Any]) -> Dict[str, Any]:
+    """keyword arguments of the real call from the (JSON-able) options of a case: scheduler 'welch:..' / 'relist:..' / 'mix' / 'long' and window
+    'hashwin' are user callables, window 'default' is the constructor's default (np.kaiser callable), 'spkaiser' SciPy's kaiser callable"""
+    o = dict(opts)
+    s = o.get("scheduler")
+    if isinstance(s, str) and s.split(":")[0] in ("welch", "relist", "mix", "long"):
+        o["scheduler"] = custom_sched(s)
+    w = o.get("win")
+    if w == "hashwin":
+        o["win"] = hashwin
+    elif w == "default":
+        del o["win"]
+    elif w == "spkaiser":
+        from scipy.signal.windows import kaiser as sp_kaiser
+        o["win"] = sp_kaiser
+    return o
+
+
+def tol_window(opts: Dict[str, Any], L: int) -> np.ndarray:
+    """magnitudes of the window of a case (enters only the rounding budget of the backend comparison)"""
+    w = opts.get("win", "default")
+    if w == "hashwin":
+        return hashwin(L)
+    if w == "hann":
+        return _an.window("hann", L, None)
+    return _an.window("kaiser", L, float(opts.get("psll", 200.0)))
+
+
+def spec_record(spec: Dict[str, Any]) -> Tuple[np.ndarray, Optional[np.ndarray]]:
+    """a long record rebuilt from a small description (a replay does not store the samples): noise + offset + drift (or zero / constant), the
+    second channel a delayed copy plus its own noise; `holes` = [channel, index, 0 nan | 1 +inf | 2 -inf]"""
+    r = np.random.default_rng(int(spec["seed"]))
+    N = int(spec["N"])
+    t = np.arange(N, dtype=np.float64)
+
+    def chan(k):
+        if spec.get("kind") == "zero":
+            return np.zeros(N)
+        if spec.get("kind") == "const":
+            return np.full(N, 2.5 - 4.0 * k)
+        return r.standard_normal(N) + (3.0 - 5.0 * k) + (0.7 + k) * t / N
+    x = chan(0)
+    y = None
+    if spec.get("cross"):
+        y = chan(1) + (0.5 * np.roll(x, 3) if spec.get("kind") not in ("zero", "const") else 0.0)
+    if spec.get("f32"):
+        x = x.astype(np.float32).astype(np.float64)
+        y = None if y is None else y.astype(np.float32).astype(np.float64)
+    for ch, idx, code in spec.get("holes", []):
+        ([x, y][int(ch)])[int(idx)] = [np.nan, np.inf, -np.inf][int(code)]
+    return x, y
+
+
+def case_record(case: Dict[str, Any]) -> Tuple[np.ndarray, Optional[np.ndarray]]:
+    if "rec" in case:
+        return spec_record(case["rec"])
+    return unhex(case["x"]), unhex(case["y"])
+
+
+def changed_detail(roots: List[Any], snap0: List[bytes], snap1: List[bytes]) -> str:
+    k = [i for i, (u, v) in enumerate(zip(snap0, snap1)) if u != v][0]
+    r = roots[k]
+    if isinstance(r, np.ndarray) and r.dtype.kind == "f" and r.dtype.itemsize in (4, 8):
+        old = np.frombuffer(snap0[k][:r.nbytes], dtype=r.dtype)
+        new = np.ascontiguousarray(r).ravel()
+        ch = np.nonzero(old.view(f"u{r.dtype.itemsize}") != new.view(f"u{r.dtype.itemsize}"))[0]
+        if ch.size:
+            return (f": flat element {int(ch[0])} of {r.size} was {old[int(ch[0])]!r} and is now {new[int(ch[0])]!r} ({ch.size} element(s) changed, "
+                    f"last at {int(ch[-1])})")
+    return ""
+
+
+def stored_mismatch(an, x, y, xz, yz) -> Optional[str]:
+    """None if the analyzer's stored record is (still) the zero-filled record, else a description"""
+    got = [("x1", np.asarray(an.x1).astype(np.float64), xz, x)]
+    if y is not None:
+        got.append(("x2", np.asarray(an.x2).astype(np.float64), yz, y))
+    for nm, g, e, orig in got:
+        if g.shape != e.shape:
+            return f"{nm} has shape {g.shape}, expected {e.shape}"
+        if g.tobytes() != e.tobytes():
+            j = np.nonzero(g.view(np.uint64) != e.view(np.uint64))[0]
+            return (f"{nm}[{int(j[0])}] = {g[int(j[0])]!r}, expected {e[int(j[0])]!r} (caller's sample {orig[int(j[0])]!r}; {j.size} of {g.size} "
+                    f"samples differ, last at {int(j[-1])})")
+    return None
+
+
+def is_saturated(x: np.ndarray, y: Optional[np.ndarray]) -> bool:
+    """every channel is noise of amplitude >= 1e159: each windowed DFT power overflows inside the kernels (saturated regime of range_probe)"""
+    return all(float(np.min(np.abs(c))) > 0 and float(np.median(np.abs(c))) >= 1e159 for c in ([x] if y is None else [x, y]))
+
+
+def check_saturated(P: C.Part, res, sig: Dict[str, Any], rp: Dict[str, Any], where: str) -> None:
+    """the saturated-probe predicate of range_probe (densities / coherence / transfer function finite because compute() zero-fills the statistics
+    that overflowed) for one full-plan result.  Demanded only when every segment has >= SAT_MIN_L samples: a segment of <= order + 1 samples has
+    an identically zero detrended residual, its power is rounding noise (finite, ~1e290) instead of an overflow, and the quotient of such
+    numbers is outside the amplitude domain of sub-claim d (ASSUMPTIONS) — not a statement about the zero-filling."""
+    if int(np.min(np.asarray(res.L))) < SAT_MIN_L:
+        P.hit("saturated-not-demanded(segments shorter than 8 samples)")
+        return
+    with np.errstate(all="ignore"), warnings.catch_warnings():
+        warnings.simplefilter("ignore")
+        try:
+            badn = [n for n in DENS if getattr(res, n) is not None and not np.all(np.isfinite(np.asarray(getattr(res, n))))]
+        except Exception as ex:
+            badn = [f"raised {type(ex).__name__}"]
+    P.hit("saturated-sweep")
+    if badn:
+        P.violations.append(C.Violation(what=f"{where}: finite record of amplitude >= 1e160: non-finite {badn} — the statistics that overflowed inside the "
+                                             f"kernels are no longer zero-filled", signature=dict(sig, subclaim="finite", saturated=True), replay=rp))
+
+
+def eval_seq(P: C.Part, case: Dict[str, Any], ref_cache: Optional[Dict[Any, Any]] = None) -> Optional[Dict[str, Any]]:
+    """one record in one presentation under one set of options, analysed by a SEQUENCE of calls: case['seq'] = [[slot, entry], ...] with slot
+    'A' / 'B' = an analyzer built once from the caller's object and reused, 'M' = a module-level wrapper called on the caller's object again.
+    After EVERY step: the caller's object holds the same bytes (b), every analyzer built so far still stores the zero-filled record (a/c), the
+    result equals — bit for bit, same code path — the first result of the same kind in this sequence (repeat) and the result for the plain
+    C-contiguous float64 zero-filled record (a/c); the last result of each kind is finite (d).  Returns the reference fields per kind."""
+    from speckit.analysis import SpectrumAnalyzer
+    import speckit
+    x, y = case_record(case)
+    fs, opts, backend = float(case["fs"]), dict(case["opts"]), case["backend"]
+    freq, L, pres, pattern, seq = float(case["freq"]), int(case["L"]), case["present"], case["pattern"], case["seq"]
+    N = len(x)
+    mode = "auto" if y is None else "cross"
+    order = int(opts.get("order", 0))
+    sched = str(opts.get("scheduler", "default")).split(":")[0]
+    sig0 = {"present": pres, "backend": backend, "order": order, "mode": mode, "pattern": pattern, "stream": case["stream"]}
+    rp = {"seq_case": case}
+    P.cases += 1
+    tag = "+".join(f"{s}.{e}" for s, e in seq)
+    plain = pres in ("2xN_C", "1d_C") and pattern == "none" and len(seq) == 1 and case.get("kind") is None
+    if N >= 8 and not plain:
+        P.nontrivial.add((case["stream"], pres, pattern, order, backend, tag, mode, sched, case.get("olap_form"), str(opts.get("win", "default")),
+                          case.get("kind")))
+    for k, v in (("present", pres), ("pattern", pattern), ("backend", backend), ("order", order), ("sched", sched), ("olap", case.get("olap_form")),
+                 ("win", opts.get("win", "default")), ("cell", f"{backend}.{order}.{mode}"), ("seq", tag if len(seq) > 1 else "single-call")):
+        P.hit(f"{case['stream']}.{k}.{v}")
+    xz, yz = zero_fill(x), zero_fill(y)
+    try:
+        obj, roots = present(pres, x, y)
+    except ImportError:
+        P.hit("pandas-unavailable")
+        return None
+    snap0 = snapshot(roots)
+    kw = real_opts(dict(opts, backend=backend))
+    ans: Dict[str, Any] = {}
+    first: Dict[str, Any] = {}
+    last: Dict[str, Any] = {}
+    for si, (slot, entry) in enumerate(seq):
+        kind = STEP_KIND[entry]
+        sig = dict(sig0, entry=entry if slot == "M" else "analyzer." + entry, step=si)
+        where = (f"step {si} of [{tag}]: {sig['entry']}({pres}, N={N}, pattern={pattern}, order={order}, backend={backend}, sched={opts.get('scheduler')}, "
+                 f"olap={opts.get('olap', 'default')!r}, win={opts.get('win', 'default')}" + (f", freq={freq!r}, L={L}" if kind != "full" else "") + ")")
+        P.hit(f"{case['stream']}.entry.{sig['entry']}")
+        try:
+            with warnings.catch_warnings(), np.errstate(all="ignore"):
+                warnings.simplefilter("ignore")
+                if slot == "M":
+                    if entry in ("compute_spectrum", "lpsd"):
+                        res = getattr(speckit, entry)(obj, fs, **kw)
+                    elif entry == "compute_single_bin":
+                        res = speckit.compute_single_bin(obj, fs, freq, L=L, **kw)
+                    else:
+                        res = speckit.compute_single_bin(obj, fs, freq, fres=fs / L, **kw)
+                else:
+                    if slot not in ans:
+                        ans[slot] = SpectrumAnalyzer(obj, fs, **kw)
+                    an = ans[slot]
+                    res = an.compute() if entry == "compute" else (an.compute_single_bin(freq, L=L) if entry == "single" else an.compute_single_bin(freq, fres=fs / L))
+        except Exception as ex:
+            changed = snapshot(roots) != snap0
+            ctrl_raises = False
+            if kind not in first:        # never succeeded before: an option / plan error that a plain noise record of this size provokes too?
+                ctrl = np.random.default_rng(N).standard_normal((1 if y is None else 2, N))
+                try:
+                    run_entry(ctrl[0].copy() if y is None else ctrl, fs, KIND_REF[kind], backend, opts, freq, L)
+                except Exception:
+                    ctrl_raises = True
+            if ctrl_raises and not changed:
+                P.hit("options-rejected-for-any-record(" + type(ex).__name__ + ")")
+                return None
+            P.violations.append(C.Violation(what=f"{where} raised {ex!r}" + (" AND modified the caller's data" if changed else ""),
+                                            signature=dict(sig, subclaim="untouched" if changed else "raises"), replay=rp))
+            return None
+        # b. untouched after this step
+        snap1 = snapshot(roots)
+        if snap1 != snap0:
+            P.violations.append(C.Violation(what=f"{where}: the caller's data was modified{changed_detail(roots, snap0, snap1)}",
+                                            signature=dict(sig, subclaim="untouched"), replay=rp))
+            return None
+        # a./c. every analyzer built so far still stores the zero-filled record
+        for sl, an in ans.items():
+            d = stored_mismatch(an, x, y, xz, yz)
+            if d is not None:
+                P.violations.append(C.Violation(what=f"{where}: the record stored in analyzer {sl} is not the zero-filled record: {d}",
+                                                signature=dict(sig, subclaim="sanitise" if pattern != "none" else "layout", stage="stored"), replay=rp))
+                return None
+        fld = result_fields(res)
+        # repeat: same options, same record, same code path => same bits
+        if kind in first:
+            d = diff_fields(fld, first[kind][0])
+            if d is not None:
+                k, j, u, v = d
+                P.violations.append(C.Violation(what=f"{where}: {k}[{j}] = {u!r} but step {first[kind][1]} of the same sequence (same record, same options) gave {v!r}",
+                                                signature=dict(sig, subclaim="repeat", field=k), replay=rp))
+                return None
+        else:
+            first[kind] = (fld, si)
+        last[kind] = (res, sig, where)
+    # a./c. each kind equals the result for the plain C-contiguous float64 zero-filled record, bit for bit
+    refs: Dict[str, Any] = {}
+    for kind, (fld, si) in first.items():
+        rkey = (case.get("x_id"), kind, backend, repr(sorted(opts.items())), freq, L) if case.get("x_id") is not None else None
+        ref = ref_cache.get(rkey) if (ref_cache is not None and rkey is not None) else None
+        sig = dict(last[kind][1])
+        where = last[kind][2]
+        if ref is None:
+            canon = xz.copy() if y is None else np.array([xz, yz], dtype=np.float64)
+            try:
+                _, rres = run_entry(canon, fs, KIND_REF[kind], backend, opts, freq, L)
+            except Exception as ex:
+                P.violations.append(C.Violation(what=f"{where}: the plain zero-filled float64 record raised {ex!r}", signature=dict(sig, subclaim="raises", ref=True), replay=rp))
+                return None
+            ref = result_fields(rres)
+            if ref_cache is not None and rkey is not None:
+                ref_cache[rkey] = ref
+        refs[kind] = ref
+        d = diff_fields(fld, ref)
+        if d is not None:
+            k, j, u, v = d
+            P.violations.append(C.Violation(
+                what=f"{where}: {k}[{j}] = {u!r} (first result of kind '{kind}') but the plain C-contiguous float64 " + ("zero-filled " if pattern != "none" else "")
+                     + f"record gives {v!r}", signature=dict(sig, subclaim="sanitise" if pattern != "none" else "layout", field=k), replay=rp))
+            return None
+    # d. finiteness
+    for kind, (res, sig, where) in last.items():
+        if in_domain(xz, yz):
+            check_finite(P, res, sig, rp, where)
+        elif kind == "full" and is_saturated(xz, yz):
+            check_saturated(P, res, sig, rp, where)
+        else:
+            P.hit("finite-not-demanded(out of amplitude domain)")
+    return refs
+
+
+class Cycler:
+    """per-dimension round robin with a seed-dependent starting point: every value of a list of n entries is used within n consecutive draws, and
+    lists of different lengths drift against each other, so combinations change over the run and across seeds"""
+    def __init__(self, rng: np.random.Generator):
+        self.rng = rng
+        self.pos: Dict[str, int] = {}
+
+    def __call__(self, name: str, lst: List[Any]) -> Any:
+        if name not in self.pos:
+            self.pos[name] = int(self.rng.integers(0, 1 << 20))
+        v = lst[self.pos[name] % len(lst)]
+        self.pos[name] += 1
+        return v
+
+
+def sweep_channels(rng: np.random.Generator, N: int, cls: str, cross: bool) -> Tuple[np.ndarray, Optional[np.ndarray]]:
+    """offset + linear + quadratic trend + tone with a phase + noise per channel; the second channel contains a delayed copy of the first"""
+    t = np.arange(N, dtype=np.float64)
+
+    def chan():
+        return (float(rng.uniform(-30, 30)) + float(rng.uniform(-0.2, 0.2)) * t + float(rng.uniform(-1e-3, 1e-3)) * t * t
+                + 2.0 * np.sin(2 * np.pi * float(rng.uniform(0.02, 0.45)) * t + float(rng.uniform(0, 6.28))) + rng.standard_normal(N))
+    x = chan()
+    y = (0.5 * np.roll(x, 3) + chan()) if cross else None
+    if cls == "f32":
+        x = x.astype(np.float32).astype(np.float64)
+        y = None if y is None else y.astype(np.float32).astype(np.float64)
+    elif cls == "int":
+        x = np.round(x).astype(np.float64) + 0.0
+        y = None if y is None else np.round(y).astype(np.float64) + 0.0
+    return x, y
+
+
+def sweep_opts(cyc: Cycler, rng: np.random.Generator, N: int, order: int, sched: Optional[str] = None, olap: Optional[str] = None,
+               numba_only: bool = False) -> Tuple[Dict[str, Any], str]:
+    """options of one sweep case -> (JSON-able options, overlap request form).  Cost: with an overlap so high that (1 - olap) L < 1 the built-in
+    schedulers put N - L + 1 segments into every bin; the NumPy kernels are slow there, so that combination runs on the Numba kernels only
+    (`numba_only`) and the NumPy kernels get the very high overlap through the user schedulers (capped segment counts) and single bins."""
+    o: Dict[str, Any] = {"order": int(order), "Jdes": int(rng.integers(5, 13)), "Kdes": int(rng.choice([1, 2, 5])), "bmin": float(rng.choice([1.0, 1.0, 2.0])),
+                         "Lmin": 1}
+    s = sched or cyc("sched", SW_SCHEDS)
+    form = olap or cyc("olap", SW_OLAPS)
+    if form == "high" and s in _an.SCHEDS and not numba_only:
+        s = cyc("sched.high", ["welch", "relist"])
+    if s == "welch":
+        divs = [d for d in range(6, N // 2 + 1) if N % d == 0]
+        Lw = int(rng.choice(divs)) if (divs and rng.random() < 0.6) else int(rng.integers(6, max(7, N // 2)))       # a divisor of N: olap = 0 tiles the record
+        s = f"welch:{Lw}"
+    elif s == "relist":
+        a, b = int(rng.integers(8, max(9, N // 4))) | 1, (int(rng.integers(N // 3, N // 2 + 1)) & ~1)
+        s = f"relist:{a},{b},{a},{N},{b},{a + 1},{a}"
+    o["scheduler"] = s
+    if form == "float":
+        o["olap"] = float(np.round(rng.uniform(0.05, 0.9), 3))
+    elif form == "zero":
+        o["olap"] = 0.0
+    elif form == "high":
+        o["olap"] = float(rng.choice([0.99, 0.995, 0.999]))          # (1 - olap) L < 1 for every L < 100
+    else:
+        o["olap"] = "default"
+    w = cyc("win", SW_WINS)
+    o["win"] = w
+    if w in ("kaiser", "default", "spkaiser"):
+        o["psll"] = float(cyc("psll", SW_PSLL))
+    return o, form
+
+
+def sweep_single(cyc: Cycler, rng: np.random.Generator, N: int, fs: float, tiling: bool = False) -> Tuple[float, int]:
+    """single-bin request: whole record (K = 1), a divisor of N (olap = 0: back-to-back up to the last sample), odd / even lengths; frequency on a
+    bin centre, between centres, 0 or Nyquist"""
+    divs = [d for d in range(5, N // 2 + 1) if N % d == 0]
+    k = "div" if (tiling and divs) else cyc("singleL", ["N", "div", "odd", "even", "third"])
+    if k == "div" and divs:
+        L = int(rng.choice(divs))
+    elif k == "N":
+        L = N
+    elif k == "odd":
+        L = int(rng.integers(5, N)) | 1
+    elif k == "even":
+        L = max(6, int(rng.integers(6, N)) & ~1)
+    else:
+        L = max(5, N // 3)
+    L = min(L, N)
+    fk = cyc("singlef", ["centre", "between", "centre", "zero", "between", "nyquist"])
+    m = int(rng.integers(1, max(2, L // 2)))
+    freq = {"centre": fs * m / L, "between": fs * (m + float(rng.uniform(0.1, 0.9))) / L if (m + 1) <= L / 2 else fs * m / L, "zero": 0.0, "nyquist": fs / 2}[fk]
+    return float(freq), int(L)
+
+
+def few_segments(L: int, N: int, form: str) -> int:
+    """single bin under a very high overlap: (N - L) / ((1 - olap) L) + 1 segments — keep N - L <= 3 so that the count stays small"""
+    return max(L, N - 3) if form == "high" else L
+
+
+def backend_agreement(P: C.Part, label: str, x: np.ndarray, y: Optional[np.ndarray], fs: float, opts: Dict[str, Any], refs: Dict[str, Dict[str, Any]],
+                      rp: Dict[str, Any]) -> None:
+    """the Numba and the NumPy kernels evaluate the same quantities: for one record under identical options their statistics agree within twice the
+    forward rounding budget of one kernel (_an.bin_tol, scaled by max_seg sum |x w|; each is within one budget of the exact value), the plan and the
+    window sums (same code for every backend) exactly.  A layout / sanitising / state defect confined to ONE backend's branch shows here even when
+    both of that backend's runs (test and reference) suffer from it alike."""
+    (ba, ra), (bb, rb) = list(refs.items())[:2]
+    order = int(opts.get("order", 0))
+    for kind in ra:
+        if kind not in rb:
+            continue
+        A, B = ra[kind], rb[kind]
+        P.cases += 1
+        P.hit("agreement." + kind)
+        sig = {"subclaim": "backend-agreement", "order": order, "mode": "auto" if y is None else "cross", "kind": kind, "backends": f"{ba}|{bb}"}
+        where = f"{label} ({kind}, order={order}, sched={opts.get('scheduler')}, win={opts.get('win', 'default')}, olap={opts.get('olap')!r})"
+        bad = None
+        for k in ("f", "r", "b", "L", "K", "navg", "O", "S12", "S2"):
+            if A[k].shape != B[k].shape or A[k].tobytes() != B[k].tobytes():
+                bad = f"{k} differs between backends {ba} and {bb} (computed by backend-independent code)"
+                break
+        if bad is None and (len(A["D"]) != len(B["D"]) or any(not np.array_equal(u, v) for u, v in zip(A["D"], B["D"]))):
+            bad = f"segment starts differ between backends {ba} and {bb}"
+        if bad is None:
+            for j in range(len(A["f"])):
+                Lj = int(A["L"][j])
+                w = np.abs(tol_window(opts, Lj))
+                idx = A["D"][j][:, None] + np.arange(Lj)[None, :]
+                a = float(np.max(np.abs(x[idx]) @ w)) + 1e-300
+                b = a if y is None else float(np.max(np.abs(y[idx]) @ w)) + 1e-300
+                tXX, tYY, tXY, tM2 = _an.bin_tol(Lj, 2 * np.pi * float(A["f"][j]) / fs, a, b, order)
+                for k, t in (("XX", tXX), ("YY", tYY if y is not None else tXX), ("XY", tXY), ("M2", tM2)):
+                    u, v = A[k][j], B[k][j]
+                    if not abs(u - v) <= 2 * t:
+                        bad = f"{k}[{j}] (L={Lj}, K={len(A['D'][j])}, f={float(A['f'][j])!r}) = {u!r} with backend {ba} but {v!r} with backend {bb}: differ by {abs(u - v):.3e} > 2 x rounding budget {t:.3e}"
+                        sig["field"] = k
+                        break
+                if bad:
+                    break
+        if bad:
+            P.violations.append(C.Violation(what=f"{where}: {bad}", signature=sig, replay=rp))
+
+
+def sweep_cell(ctx, P: C.Part, cyc: Cycler, rnd: int, order: int, cross: bool, ci: int) -> None:
+    """one (order, mode) cell: the same records and options through BOTH backends (A cases), plus cycling layout / sanitise / degenerate cases"""
+    rng = ctx.rng
+    mode = "cross" if cross else "auto"
+    fs = float(cyc("fs", [1.0, 2.0, 1000.0, 0.37]))
+    # record 1: N a multiple of 48 (halves, thirds, quarters, twelfths tile it); record 2: any length, both parities over the run
+    N1 = int(cyc("N1", [96, 240, 144, 192, 336]))
+    N2 = int(cyc("N2", [int(rng.integers(60, 400)) | 1, int(rng.integers(60, 400)) & ~1, 255, 128]))
+    cls = cyc("cls", ["real", "f32", "int"])
+    x1, y1 = sweep_channels(rng, N1, "real", cross)
+    x2, y2 = sweep_channels(rng, N2, cls, cross)
+    o1, f1 = sweep_opts(cyc, rng, N1, order, sched="mix", olap="zero")
+    o2, f2 = sweep_opts(cyc, rng, N2, order)
+    fq1, L1 = sweep_single(cyc, rng, N1, fs, tiling=True)
+    fq2, L2 = sweep_single(cyc, rng, N2, fs)
+    L2a = few_segments(L2, N2, f2)
+    pres_all = list(PRES_CROSS if cross else PRES_AUTO)
+    if cls in ("f32", "int"):
+        pres_all += PRES_CROSS_F32 if cross else PRES_AUTO_F32
+    pres_holes = list(pres_all)                               # integer containers cannot hold a NaN
+    if cls == "int":
+        pres_all += PRES_CROSS_INT if cross else PRES_AUTO_INT
+    alias = ALIAS_CROSS if cross else ALIAS_AUTO
+    plainp = "2xN_C" if cross else "1d_C"
+    refsA1: Dict[str, Any] = {}
+    refsA2: Dict[str, Any] = {}
+    caseA2 = None
+    for bnames in SW_BACKENDS:
+        if ctx.time_left() < 25 or len(P.violations) >= MAX_VIOL:
+            return
+        backend = bnames[rnd % len(bnames)]
+        cache: Dict[Any, Any] = {}
+
+        def mk(stream_kind, x, y, xid, pres, pattern, opts, form, seq, freq, L, **extra):
+            c = {"stream": "sweep", "x": hexs(x), "y": hexs(y), "x_id": xid, "present": pres, "pattern": pattern, "fs": fs, "opts": opts, "olap_form": form,
+                 "backend": backend, "seq": seq, "freq": float(freq), "L": int(L), "role": stream_kind}
+            c.update(extra)
+            return c
+        # A1: aliasing presentation, every segment structure in one plan, olap exactly 0, call history with a back-to-back single bin in between
+        seqA1 = [["A", "compute"], ["A", "single"], ["A", "compute"], ["A", "single_fres"], ["M", "compute_spectrum"], ["A", "compute"]]
+        r = eval_seq(P, mk("A1", x1, y1, (ci, 1), cyc("aliasA1", alias), "none", o1, f1, seqA1, fq1, L1), cache)
+        if r is not None:
+            refsA1[backend] = r
+        # A2: aliasing presentation, cycling scheduler / overlap form / window, cycling call history
+        cA2 = mk("A2", x2, y2, (ci, 2), cyc("aliasA2", alias), "none", o2, f2, cyc("seq", SW_SEQS), fq2, L2a)
+        r = eval_seq(P, cA2, cache)
+        if r is not None:
+            refsA2[backend] = r
+            caseA2 = cA2
+        # B: the same channels in other layouts / containers / dtypes: 2xN vs Nx2 vs list of two on every cell, one more cycling through all
+        for pres in ((["Nx2_C", "list_arrays"] if cross else ["1d_list"]) + [cyc("presB." + mode + cls, pres_all)]):
+            eval_seq(P, mk("B", x2, y2, (ci, 2), pres, "none", o2, f2, [STEP_OF_ENTRY[cyc("entryB", ENTRIES_ALL)]], fq2, L2a), cache)
+        # C: non-finite samples; C1 in the plain (aliasing) layout through every entry point in turn, three calls on the same object;
+        #    C2 in a cycling presentation with freshly drawn options
+        for role, pres, opts, form in (("C1", plainp, o2, f2), ("C2", cyc("presC." + mode + cls, pres_holes), None, None)):
+            xh, yh = x2.copy(), None if y2 is None else y2.copy()
+            pattern = cyc("pattern", PATTERNS[1:])
+            inject(rng, xh, yh, pattern)
+            if opts is None:
+                opts, form = sweep_opts(cyc, rng, N2, order, numba_only=(backend != "numpy"))
+            step = STEP_OF_ENTRY[cyc("entry" + role, ENTRIES_ALL)]
+            eval_seq(P, mk(role, xh, yh, None, pres, pattern, opts, form, [step] * (3 if role == "C1" else 1), fq2, few_segments(L2, N2, form)), None)
+        # D: degenerate finite records (zero / constant / one dead channel / identical channels / tiny / huge ...), then the saturated regime
+        for kind in (cyc("kind." + mode, [k for k in DEGENERATE if (("|" in k) == cross)]), "sat|sat" if cross else "sat"):
+            parts = kind.split("|")
+            od, fd = sweep_opts(cyc, rng, N2, order, numba_only=(backend != "numpy"))
+            if parts[0] == "sat":
+                amp = float(cyc("satamp", [1e160, 1e200]))
+                xd = amp * rng.standard_normal(N2)
+                yd = (0.5 * xd + amp * rng.standard_normal(N2)) if cross else None
+                od["Lmin"] = SAT_MIN_L
+                if od["scheduler"] == "lpsd":                   # lpsd_plan ignores Lmin
+                    od["scheduler"] = "ltf"
+                elif od["scheduler"].startswith("welch:") and int(od["scheduler"].split(":")[1]) < SAT_MIN_L:
+                    od["scheduler"] = f"welch:{SAT_MIN_L}"
+                seqD = [STEP_OF_ENTRY[cyc("entryDsat", ["analyzer.compute", "compute_spectrum", "lpsd"])]] * 2
+            else:
+                xd = degenerate_record(rng, N2, parts[0])
+                yd = None
+                if cross:
+                    if parts[1] in ("same", "sameconst") and parts[0] in ("same", "sameconst"):
+                        yd = xd.copy()
+                    elif parts[0] == "negsame":
+                        yd = degenerate_record(rng, N2, "noise")
+                        xd = -3.0 * yd
+                    else:
+                        yd = degenerate_record(rng, N2, parts[1])
+                seqD = [["A", "compute"], ["A", cyc("entryD", ["single", "single_fres"])], ["A", "compute"]]
+            eval_seq(P, mk("D", xd, yd, None, cyc("presD." + mode, ["2xN_C", "Nx2_Tview", "list_arrays", "Nx2_C"] if cross else ["1d_C", "1d_list", "1d_strided"]),
+                           "none", od, fd, seqD, fq2, few_segments(L2, N2, fd), kind=kind), None)
+            P.hit(f"sweep.degenerate.{kind}")
+    # (iv) the two backends against each other on the A records (identical options)
+    if len(refsA1) == 2:
+        backend_agreement(P, f"mix plan, N={N1}", x1, y1, fs, o1, refsA1, {"agreement": {"x": hexs(x1), "y": hexs(y1), "fs": fs, "opts": o1, "freq": fq1, "L": L1,
+                                                                                       "backends": list(refsA1)}})
+    if len(refsA2) == 2 and caseA2 is not None:
+        backend_agreement(P, f"N={N2}", x2, y2, fs, o2, refsA2, {"agreement": {"x": hexs(x2), "y": hexs(y2), "fs": fs, "opts": o2, "freq": fq2, "L": L2a,
+                                                                              "backends": list(refsA2)}})
+    if ci < 2:
+        P.sample({"op": "sweep-cell", "order": order, "mode": mode, "N": [N1, N2], "class": cls, "opts_mix": o1, "opts": o2, "single": [fq2, L2]})
+
+
+def option_sweep(ctx, P: C.Part, rounds: int) -> None:
+    cyc = Cycler(ctx.rng)
+    ci = 0
+    for rnd in range(rounds):
+        for order in ORDERS:
+            for cross in (True, False):
+                if ctx.time_left() < 25 or len(P.violations) >= MAX_VIOL:
+                    P.notes.append("option sweep: stopped early (time budget or violation cap)")
+                    return
+                sweep_cell(ctx, P, cyc, rnd, order, cross, ci)
+                ci += 1
+
+
+def replay_agreement(P: C.Part, a: Dict[str, Any]) -> None:
+    x, y = unhex(a["x"]), unhex(a["y"])
+    refs: Dict[str, Any] = {}
+    for be in a["backends"]:
+        refs[be] = {}
+        for kind, ent in KIND_REF.items():
+            try:
+                _, r = run_entry(x.copy() if y is None else np.array([x, y]), float(a["fs"]), ent, be, a["opts"], float(a["freq"]), int(a["L"]))
+                refs[be][kind] = result_fields(r)
+            except Exception:
+                pass
+    backend_agreement(P, "replayed", x, y, float(a["fs"]), a["opts"], refs, {"agreement": a})
+
+
+# ---------------------------------------------------------------- long records (size thresholds)
+# "for all records": code that sanitises / copies / gathers in blocks, chunks or buffers of c samples (or switches method above c) can be right for
+# every record of <= c samples and wrong beyond; the quick generators above stay below 700 samples.  Record lengths just below / at / above 2^16, around
+# every block constant found in the CURRENT source (C.mined_sizes) and a few lengths well beyond are analysed with non-finite samples NEAR THE END of the
+# record (last sample, last partial block, block boundaries), compared over the whole length (bytes of the caller's object, stored record) and through
+# single bins whose segment COUNT crosses the kernels' chunk constants.  Records are described by a spec (seed, length, holes): replays stay small.
+LONG_ALWAYS = [70_001]
+LONG_MORE = [300_007, (1 << 20) + 7]            # thorough tier / when an obligation broke
+LONG_BLOCK = 1 << 16
+LONG_HUGE = 1_100_003
+
+
+def long_sizes(ctx, intensive: bool) -> Tuple[List[int], List[int]]:
+    try:
+        mined = C.mined_sizes(["speckit/analysis.py", "speckit/core.py"], lo=1024)
+    except Exception:
+        mined = []
+    cand = []
+    for c in sorted(set(mined + [LONG_BLOCK])):
+        cand += [c - 1, c, c + 1, c + 17, 2 * c + 3]
+    cand = sorted({n for n in cand if 2048 <= n <= (1_200_000 if (intensive or ctx.thorough) else 140_000)})
+    if intensive or ctx.thorough:
+        picks = cand
+    else:
+        k = int(ctx.rng.integers(0, 1 << 20))
+        picks = [cand[(k + 5 * i) % len(cand)] for i in range(3)] if cand else []
+    more = LONG_MORE if (intensive or ctx.thorough) else []
+    return LONG_ALWAYS + [n for n in picks if n not in LONG_ALWAYS] + more, mined
+
+
+def long_holes(rng: np.random.Generator, N: int, cross: bool, variant: int, blocks: List[int]) -> List[List[int]]:
+    """non-finite samples near the end of the record; variant 0: ONLY the last sample of the last channel (a block-wise scan that drops the tail sees
+    a finite record); 1: only inside the last partial block; 2: last samples, a burst, and both sides of every block boundary"""
+    nch = 2 if cross else 1
+    code = lambda: int(rng.integers(0, 3))
+    if variant == 0:
+        return [[nch - 1, N - 1, code()]]
+    if variant == 1:
+        B = max([b for b in blocks if b < N] or [N // 2])
+        lo = (N - 1) // B * B
+        idx = sorted({int(v) for v in rng.integers(lo, N, size=5)} | {N - 1})
+        return [[int(rng.integers(0, nch)), i, code()] for i in idx]
+    h = [[0, N - 1, code()], [nch - 1, N - 2, code()]]
+    h += [[int(rng.integers(0, nch)), i, code()] for i in range(N - 40, N - 33)]
+    for B in blocks:
+        for q in range(B, N, B):
+            h += [[int(rng.integers(0, nch)), i, code()] for i in (q - 1, q, q + 1) if 0 <= i < N]
+    return h[:400]
+
+
+def long_stream(ctx, P: C.Part, intensive: bool) -> None:
+    rng = ctx.rng
+    sizes, mined = long_sizes(ctx, intensive)
+    blocks = sorted(set([LONG_BLOCK] + [c for c in mined if c >= 1024]))
+    P.notes.append(f"long records: lengths {sizes} (+ {LONG_HUGE}); block constants mined from the current source: {mined}")
+    cyc = Cycler(rng)
+    chunks = sorted({c for c in mined if 1024 <= c <= 40_000} | {1 << 15})
+    for si, N in enumerate(sizes):
+        if ctx.time_left() < 40 or len(P.violations) >= MAX_VIOL:
+            P.notes.append("long records: stopped early (time budget or violation cap)")
+            return
+        fs = 1.0
+        for role in ("full", "segments", "finite"):
+            cross = bool(cyc("cross", [True, False, True]))
+            order = int(cyc("order", ORDERS))
+            seed = int(rng.integers(0, 1 << 31))
+            if role == "full":
+                # non-finite samples near the end; Numba kernels through a built-in plan (L = N, N/2, ...), NumPy through the short `long` plan
+                backend = cyc("be.full", ["auto", "numpy", "numba"])
+                spec = {"seed": seed, "N": N, "cross": cross, "holes": long_holes(rng, N, cross, int(cyc("variant", [0, 2, 1])), blocks)}
+                pres = cyc("pres." + str(cross), ["2xN_C", "Nx2_C", "list_arrays", "Nx2_F", "2xN_F"] if cross else ["1d_C", "1d_strided", "1d_f32"])
+                if pres == "1d_f32":
+                    spec["f32"] = True
+                opts = {"order": order, "Jdes": 5, "Kdes": 2, "scheduler": "long" if backend == "numpy" else cyc("sched", ["lpsd", "long", "ltf"]),
+                        "win": cyc("win", ["hann", "kaiser"]), "psll": 120.0, "olap": cyc("olap", ["default", 0.0, 0.5])}
+                seq = [STEP_OF_ENTRY[cyc("entry.full", ["analyzer.compute", "compute_spectrum", "lpsd"])]]
+                freq, L, pattern = 0.01, N, "end-holes"
+            elif role == "segments":
+                # single bin whose segment count crosses a chunk constant of the kernels; holes in the last segments
+                backend = cyc("be.seg", ["numpy", "auto"])
+                c = int(cyc("chunk", chunks))
+                K = int(cyc("koff", [c + 1, c + 17, 2 * c + 3, c]))
+                L = max(4, -(-N // max(1, K - 1)))
+                ol = min(max(1.0 - (N - L) / ((K - 1) * L), 0.0), 0.99)
+                spec = {"seed": seed, "N": N, "cross": cross, "holes": long_holes(rng, N, cross, int(cyc("variant2", [2, 0, 1])), blocks)}
+                pres = cyc("pres2." + str(cross), ["Nx2_C", "2xN_C", "list_arrays"] if cross else ["1d_C", "1d_row_of_2d"])
+                opts = {"order": order, "win": cyc("win2", ["kaiser", "hann", "hashwin"]), "psll": 90.0, "olap": float(ol)}
+                seq = [STEP_OF_ENTRY[cyc("entry.seg", ["analyzer.single", "compute_single_bin", "analyzer.single_fres", "compute_single_bin_fres"])]] * 2
+                freq, pattern = float(fs * int(rng.integers(1, L // 2 + 1)) / L), "end-holes"
+            else:
+                # finite long record in an ALIASING presentation, analysed twice: kernels working on views of a long record must not write to it
+                backend = cyc("be.fin", ["numpy", "auto"])
+                kind = cyc("kind", [None, "zero", None, "const"])
+                spec = {"seed": seed, "N": N, "cross": cross, "holes": []}
+                if kind:
+                    spec["kind"] = kind
+                pres = cyc("pres3." + str(cross), ALIAS_CROSS if cross else ALIAS_AUTO)
+                opts = {"order": order, "scheduler": "long", "win": cyc("win3", ["hann", "kaiser", "hashwin"]), "psll": 150.0, "olap": cyc("olap3", [0.0, "default"])}
+                L = N // 2 if N % 2 == 0 else N
+                seq = [["A", "compute"], ["A", "compute"]] if backend == "numpy" else [["A", "compute"], ["A", "single"], ["A", "compute"]]
+                freq, pattern = float(fs * 3 / L), "none"
+            case = {"stream": "long", "rec": spec, "x_id": None, "present": pres, "pattern": pattern, "fs": fs, "opts": opts, "olap_form": str(opts.get("olap")),
+                    "backend": backend, "seq": seq, "freq": freq, "L": int(L), "role": role, "kind": spec.get("kind")}
+            eval_seq(P, case, None)
+            P.hit(f"long.N.{N}")
+            if si == 0:
+                P.sample({"op": "long", "role": role, "N": N, "present": pres, "backend": backend, "opts": opts, "holes": spec["holes"][:6]})
+    # far beyond every other case: constructor (scan + sanitise + copy) over 1.1e6 samples and a Numba single bin across the whole record
+    if ctx.time_left() > 60 and len(P.violations) < MAX_VIOL:
+        for cross in ((True, False) if (intensive or ctx.thorough) else (bool(rng.integers(0, 2)),)):
+            N = LONG_HUGE
+            spec = {"seed": int(rng.integers(0, 1 << 31)), "N": N, "cross": cross, "holes": long_holes(rng, N, cross, int(cyc("variant3", [0, 1, 2])), [LONG_BLOCK, 1 << 20])}
+            opts = {"order": int(cyc("order3", ORDERS)), "win": "hann", "olap": 0.0}
+            case = {"stream": "long", "rec": spec, "x_id": None, "present": cyc("pres4." + str(cross), ["2xN_C", "Nx2_C"] if cross else ["1d_C"]), "pattern": "end-holes",
+                    "fs": 1.0, "opts": opts, "olap_form": "0.0", "backend": "auto", "seq": [["A", "single"]], "freq": 0.1, "L": 4096, "role": "huge", "kind": None}
+            eval_seq(P, case, None)
+            P.hit(f"long.N.{N}")
+
+
 # ---------------------------------------------------------------- correspondence: the heap model's aliasing rules vs NumPy
 def parse_ctor_ops() -> Dict[str, List[str]]:
     txt = open(os.path.join(C.LEAN_DIR, "SpecKitV", "Gen", "Ctor.lean")).read()
@@ -1050,6 +1802,8 @@ def oracle(ctx, intensive: bool = False, hints: List[Dict[str, Any]] = ()) -> C.
     corpus(ctx, P)
     two_by_two(ctx, P)
     tiny_sizes(ctx, P)
+    option_sweep(ctx, P, ctx.scale(2, 8) * mult)
+    long_stream(ctx, P, intensive)
     synthetic_finite(ctx, P, ctx.scale(400, 4000) * mult)
     n_fin = ctx.scale(4 * len(DEGENERATE), 24 * len(DEGENERATE)) * mult
     n_lay = ctx.scale(160, 1600) * mult
@@ -1076,6 +1830,10 @@ def replay(ctx, data) -> C.Part:
         r = v.get("replay", {})
         if "case" in r:
             eval_case(P, r["case"], None)
+        elif "seq_case" in r:
+            eval_seq(P, r["seq_case"], None)
+        elif "agreement" in r:
+            replay_agreement(P, r["agreement"])
         elif "synthetic" in r:
             s = r["synthetic"]
             bins = []
